@@ -18,13 +18,15 @@ def gen_case(rng):
     nports = rng.choice([2, 2, 3])
     return {'kind': 'reuseupd', 'deltas': [rng.choice([1, 2, 10, 100]) for _ in range(nports)],
             'depth': rng.choice([0, 1, 1, 2]), 'ticks': rng.choice([3, 4]), 'init': rng.choice([0, 5]),
-            'glob': rng.random() < 0.3, 'leafports': rng.random() < 0.25}
+            'glob': rng.random() < 0.3, 'leafports': rng.random() < 0.25,
+            'ordered': rng.random() < 0.3}
 
 
 def corpus():
     return [{'kind': 'reuseupd', 'deltas': [1, 10], 'depth': 1, 'ticks': 4, 'init': 0, 'glob': False},
             {'kind': 'reuseupd', 'deltas': [1, 10, 100], 'depth': 2, 'ticks': 3, 'init': 5, 'glob': False},
             {'kind': 'reuseupd', 'deltas': [2, 10], 'depth': 1, 'ticks': 3, 'init': 0, 'glob': True},
+            {'kind': 'reuseupd', 'deltas': [1, 10], 'depth': 1, 'ticks': 4, 'init': 0, 'glob': False, 'ordered': True},
             # leaf ports wired straight to one variable directly below the root
             {'kind': 'reuseupd', 'deltas': [3, 10, 100], 'depth': 0, 'ticks': 3, 'init': 0, 'glob': False,
              'leafports': True}]
@@ -72,6 +74,13 @@ def run_impl(case):
             for seg in ['grp', 'sub'][:depth]:
                 node = node[seg]
             return node['x']
+    if case.get('ordered'):
+        # the update is built from a dict subclass (F39)
+        from collections import OrderedDict
+
+        def od(x):
+            return OrderedDict((k, od(v)) for k, v in x.items()) if isinstance(x, dict) else x
+        UPD = od(UPD)
     before = copy.deepcopy(UPD)
 
     class Const(Process):
